@@ -25,7 +25,8 @@ class C04(PoolCheck):
     PROP = 'C04'
     LEVEL = 'exploration'
     GROUP = 10
-    FAMILIES = ('ids', 'keys', 'xsitype', 'subst', 'fixed', 'wild', 'ns', 'mixed', 'assert11', 'multi', 'big', 'shadow', 'idfields')
+    FAMILIES = ('ids', 'keys', 'xsitype', 'subst', 'fixed', 'wild', 'ns', 'mixed', 'assert11', 'multi', 'big', 'shadow', 'idfields', 'simple', 'grouped',
+                'deepkey')
     CORPUS = True
     RULE = ("case = (schema family/version, pool document, channel, delivery plan, sequence of 2-5 entry points, "
             "reuse of the source object between calls); every entry point's result is compared with the eager "
